@@ -4,6 +4,7 @@ import hashlib
 import os
 import re
 from hv import hx, V, REPO
+from props import c18_ws_common as common
 
 PART = 'sha1'
 RULE = ('SHA-1: corpus (RFC 3174 vectors) first; every message length 0..1100 (every padding / block-boundary case) with '
@@ -52,8 +53,8 @@ def corpus(ctx):
     return out
 
 
-def gen(ctx):
-    thorough = ctx.tier == 'thorough'
+def gen(ctx, tier):
+    thorough = tier == 'thorough'
     rng = ctx.rng
     cases = corpus(ctx)
     for n in range(0, 1101):
@@ -66,8 +67,8 @@ def gen(ctx):
     return cases
 
 
-def gen_big(ctx):
-    thorough = ctx.tier == 'thorough'
+def gen_big(ctx, tier):
+    thorough = tier == 'thorough'
     rng = ctx.rng
     out = []
     top = (1 << 20) if thorough else (1 << 16)
@@ -114,9 +115,10 @@ def run(ctx):
         return
 
     constants_check(ctx)
+    tier = common.effective_tier(ctx, 'humphrey-ws/src/util/sha1.rs')
 
     # 1. corpus + every length 0..1100: model, implementation, hashlib
-    cases = gen(ctx)
+    cases = gen(ctx, tier)
     lines = ['sha1 ' + hx(m) for m, _ in cases]
     mo, io = ctx.both(lines)
     for (m, tag), a, b, line in zip(cases, mo, io, lines):
@@ -134,7 +136,7 @@ def run(ctx):
             pass
 
     # 2. big random messages: implementation vs hashlib; model on the smaller ones
-    big = gen_big(ctx)
+    big = gen_big(ctx, tier)
     blines = ['sha1 ' + hx(m) for m, _ in big]
     bo = ctx.impl(blines)
     ctx.evaluations += len(blines)
@@ -144,7 +146,7 @@ def run(ctx):
         ctx.mark_nontrivial(('sha1', len(m), tag))
         if b != digest(m):
             report_impl(ctx, m, b, line)
-    small = [(m, line) for (m, _), line in zip(big, blines) if len(m) <= MODEL_MAX.get(ctx.tier, 4096)]
+    small = [(m, line) for (m, _), line in zip(big, blines) if len(m) <= MODEL_MAX.get(tier, 4096)]
     mo2 = ctx.model([l for _, l in small])
     for (m, line), a in zip(small, mo2):
         ctx.count('sha1:model-on-random-big')
@@ -163,6 +165,20 @@ def run(ctx):
             ctx.report({'part': PART, 'line': 'sha1_spec ' + hx(m), 'length': len(m)}, 'spec=' + a, 'oracle=' + digest(m),
                        cls='spec-vs-oracle', failing_input=False,
                        what='the extracted RFC 3174 specification (Sha1Spec.sha1_spec) disagrees with hashlib')
+
+    # 4. extraction spot check: Coq's own vm_compute of the model vs the extracted OCaml model on the same inputs
+    xs = [rng.randbytes(n) for n in (0, 1, 55, 56, 64, 119, rng.randint(65, 300))]
+    got, err = common.coq_cases(ctx, PART, ['Prelude', 'Sha1'], ['Sha1.sha1 ' + common.coq_list(m) for m in xs])
+    ext = ctx.model(['sha1 ' + hx(m) for m in xs])
+    if got is None or len(got) != len(xs):
+        ctx.report({'part': PART, 'coqc': err}, 'coqc failed on the generated cases file', 'vm_compute results', cls='coq-cases',
+                   failing_input=False, what='in-Coq evaluation of the SHA-1 model failed (extraction spot check could not run)')
+    else:
+        for m, a, b in zip(xs, got, ext):
+            ctx.count('sha1:extraction-spot-check')
+            if a != 'ok:' + b:
+                ctx.report({'part': PART, 'line': 'sha1 ' + hx(m)}, 'extracted=' + b, 'vm_compute=' + a, cls='extraction',
+                           failing_input=False, what='the extracted OCaml SHA-1 model and Coq vm_compute disagree')
 
     for m, tag in (cases[3], cases[120], cases[-1], big[0]):
         ctx.sample({'part': PART, 'length': len(m), 'stream': tag, 'sha1': digest(m)})
